@@ -65,6 +65,32 @@ fn run(ctx: &Ctx) {
         obs.nontrivial(found as u64);
         Ok(())
     });
+    // stack depth: the list parsers on 200 000 (thorough: 2 000 000) minimal elements, in a probe program built WITHOUT optimisation (every
+    // call has a real frame there) on a thread with the default 2 MiB stack of a spawned thread. A parser that recurses once per element
+    // is killed by the stack guard; the probe is a separate process, so that this is an observation and not the end of the check
+    let deep_n = ctx.pick(200_000, 2_000_000) as usize;
+    ctx.run_fn("deep_inputs", true, "9 list parsers x n minimal elements in an unoptimised probe process with a 2 MiB stack", move |obs| {
+        let hd = std::path::PathBuf::from(std::env::var("VERIF_DIR").unwrap_or_else(|_| "/verif".into())).join("harness");
+        let out = output_with_progress(std::process::Command::new("cargo").args(["build", "-q", "--features", "std"]).current_dir(hd.join("cfgdiff")).env("CARGO_TARGET_DIR", hd.join("target-cfg-std")).env("CARGO_NET_OFFLINE", "true"), 3600, true).map_err(|e| Fail { sig: "harness:cargo".into(), msg: format!("{}", e) })?;
+        if !out.status.success() {
+            return fail("harness:deep-probe-build", format!("the unoptimised probe does not build: {}", trunc(&String::from_utf8_lossy(&out.stderr))));
+        }
+        let bin = hd.join("target-cfg-std/debug/cfgdiff");
+        for kind in ["tls-records", "tls-alert-records", "dtls-records", "extensions", "client-extensions", "server-extensions", "handshake-messages", "alerts", "named-groups"] {
+            obs.evals_add(1);
+            let o = output_with_progress(std::process::Command::new(&bin).args(["--deep", kind, &deep_n.to_string()]), 1800, true).map_err(|e| Fail { sig: "harness:deep-probe-run".into(), msg: format!("{}", e) })?;
+            let text = String::from_utf8_lossy(&o.stdout).trim().to_string();
+            let err = String::from_utf8_lossy(&o.stderr).to_string();
+            if !o.status.success() {
+                let why = if err.contains("overflowed its stack") { "overflowed its 2 MiB stack" } else { "died" };
+                return fail(format!("C01:deep:{}:{}", if err.contains("overflowed its stack") { "stack-overflow" } else { "crash" }, kind), format!("the {} parser on {} minimal elements {} ({}): {}", kind, deep_n, why, o.status, trunc(&err)));
+            }
+            ensure!(text == format!("ok {}", deep_n), format!("C01:deep:result:{}", kind), "the {} parser on {} minimal elements answered `{}`", kind, deep_n, text);
+            obs.nontrivial(fnv64(kind.as_bytes()));
+        }
+        obs.sample(json!({"elements": deep_n, "stack_bytes": 2 * 1024 * 1024, "probe": "cfgdiff --deep, dev profile"}));
+        Ok(())
+    });
     ctx.run_tape("entry_points", entry_points, ctx.pick(6_000, 300_000), 600);
     let mut cases = Vec::new();
     for (fi, f) in asset_files().iter().enumerate() {
